@@ -238,14 +238,16 @@ def nontrivial(case):
     return True
 
 
-def _corrupt(raw):
+def _corrupt(raw, rejected):
     """Binding self-test inputs: accepted lines with ONE logged field changed -> predicate TLC must name."""
     want = {}
 
     def real(m):
         return not m["nil"]
 
-    for ln in raw:
+    for i, ln in enumerate(raw):
+        if i in rejected:
+            continue
         o = json.loads(ln)
         k = o["k"]
         if k == "mw" and o["werr"] == "" and o["rerr"] == "" and o["rd"] and any(m["kd"] for m in o["rd"]):
@@ -270,7 +272,7 @@ def _corrupt(raw):
             want["mr-name"] = (c, "X03.Reads")
         if k == "sv" and o["serr"] == "" and o["lerr"] == "" and o["objhit"] == 1 and o["libs"] and \
                 all(b["hit"] for b in o["libs"]):
-            ranged = [m for m in o["ld"] if any(real(r["mat"]) for r in m["ranges"])]
+            ranged = [m for m in o["ld"] if any(real(r["mat"]) and r["n"] >= 1 for r in m["ranges"])]
             src_real = any(real(r["mat"]) and r["mat"]["name"].strip() and r["mat"]["pid"] for m in o["src"] for r in m["ranges"])
             if "sv-ld-texture" not in want and ranged and src_real:
                 c = json.loads(ln)
@@ -299,12 +301,12 @@ def _corrupt(raw):
                 m["idx"][0], m["idx"][1] = m["idx"][1], m["idx"][0]     # a loaded triangle turned over
                 want["sv-face"] = (c, "X03.LoadCorners")
         if k == "pl" and o["lerr"] == "" and "pl-colour" not in want:
-            mats = [r["mat"] for m in o["ld"] for r in m["ranges"] if real(r["mat"]) and r["mat"]["kd"]]
+            mats = [r["mat"] for m in o["ld"] for r in m["ranges"] if real(r["mat"]) and r["mat"]["kd"] and r["n"] >= 1]
             if mats:
                 c = json.loads(ln)
                 for m in c["ld"]:
                     for r in m["ranges"]:
-                        if r["mat"]["kd"]:
+                        if r["mat"]["kd"] and r["n"] >= 1:
                             r["mat"]["kd"][2] = (r["mat"]["kd"][2] + 257 * 2) % 65536
                 want["pl-colour"] = (c, "X03.PairMaterials")
         if len(want) == 10:
@@ -312,8 +314,8 @@ def _corrupt(raw):
     return want
 
 
-def selftest(ctx, raw):
-    want = _corrupt(raw)
+def selftest(ctx, raw, rejected):
+    want = _corrupt(raw, rejected)
     names = ["mw-rd-colour", "mw-text-colour", "mw-rd-scalar", "mr-name", "sv-ld-texture", "sv-lib", "sv-dir", "sv-usemtl",
              "sv-face", "pl-colour"]
     missing = [k for k in names if k not in want]
@@ -386,8 +388,8 @@ def run_family(ctx, prefix="X03"):
     fresh = [v for v in ctx.violations if v["signature"] not in known]
     if idle and not fresh:
         raise core.Infra("predicates never exercised: %s" % idle)
-    if ctx.tier == "thorough" and not fresh:
-        ctx.extra["selftest_corruptions_rejected"] = selftest(ctx, raw)
+    if (ctx.tier == "thorough" or os.environ.get("VERIF_SELFTEST") == "1") and not fresh:
+        ctx.extra["selftest_corruptions_rejected"] = selftest(ctx, raw, {f["case"] for f in findings})
     ctx.assumptions += [
         "the independent tokenisers (harness/mtlfam/tok.go) read OBJ / MTL text as the format descriptions say; "
         "inline comments, map options, spectral/xyz colours and Tr are not modelled and never generated",
